@@ -21,7 +21,10 @@ import (
 	"sort"
 	"strconv"
 	"strings"
+	"time"
 
+	"github.com/WICG/webpackage/go/bundle"
+	"github.com/WICG/webpackage/go/bundle/signature"
 	bver "github.com/WICG/webpackage/go/bundle/version"
 	ib "github.com/WICG/webpackage/go/integrityblock"
 	"github.com/WICG/webpackage/go/integrityblock/webbundleid"
@@ -219,6 +222,62 @@ func dynInt(repo, name string) (v int64, ok bool) {
 		}
 		_, l := base(int(n))
 		return int64(l), true
+	case "p_max_variants": // the largest number of possible keys a Variants value may span (one axis of n values)
+		return largestAccepted(1, 1<<20, func(n int) bool {
+			axis := make([]string, n+1)
+			for i := range axis {
+				axis[i] = "v"
+			}
+			_, err := bundle.VerifNumberOfPossibleKeys([][]string{axis})
+			return err == nil
+		})
+	case "p_sxg_max_mi_record_size": // the largest MI record size Exchange.Verify accepts (a real signature, b3)
+		keysOnce()
+		return largestAccepted(1, 1<<22, func(n int) bool {
+			h := http.Header{}
+			h.Add("Content-Type", "text/plain")
+			e := sxg.NewExchange(sver.Version1b3, "https://example.com/", "GET", http.Header{}, 200, h, []byte("probe"))
+			s := signExchange(e, sxgKeys[0], n, baseDate, baseDate+100, "https://cert.example.org/c", "https://example.com/v")
+			if !s.ok {
+				return false
+			}
+			_, ok := e.Verify(time.Unix(baseDate+1, 0), func(string) ([]byte, error) { return s.chain, nil }, discardLog)
+			return ok
+		})
+	case "p_bsig_max_mi_record_size": // the largest MI record size signature.Verifier accepts (body encoded by hand, real signature)
+		sigKeysOnce()
+		leaf := sigKeys[0]
+		chain := certurl.CertChain{{Cert: leaf.cert, OCSPResponse: []byte("ocsp")}}
+		return largestAccepted(1, 1<<22, func(n int) bool {
+			var body bytes.Buffer
+			dg, err := mice.Draft03Encoding.Encode(&body, []byte("probe"), n)
+			if err != nil {
+				return false
+			}
+			h := http.Header{}
+			h.Add("Content-Type", "text/plain")
+			h.Add("Content-Encoding", mice.Draft03Encoding.ContentEncoding())
+			h.Add("Digest", dg)
+			e := &bundle.Exchange{Request: bundle.Request{URL: mustURL("https://" + leaf.cert.DNSNames[0] + "/probe"), Header: http.Header{}},
+				Response: bundle.Response{Status: 200, Header: h, Body: body.Bytes()}}
+			signer, err := signature.NewSigner(bver.VersionB2, chain, leaf.priv, mustURL("https://"+leaf.cert.DNSNames[0]+"/v"), time.Unix(baseDate, 0), time.Hour)
+			if err != nil {
+				return false
+			}
+			if err := signer.AddExchange(e, mice.Draft03Encoding.IntegrityIdentifier()); err != nil {
+				return false
+			}
+			sigs, err := signer.UpdateSignatures(nil)
+			if err != nil {
+				return false
+			}
+			v, err := signature.NewVerifier(sigs, time.Unix(baseDate+10, 0), bver.VersionB2)
+			if err != nil {
+				return false
+			}
+			r, err := v.VerifyExchange(e)
+			return err == nil && r != nil
+		})
 	case "p_max_sct_length": // limit on the serialized list body: the longest single SCT accepted, plus its 2-byte length
 		n, ok := largestAccepted(1, 1<<20, func(n int) bool {
 			_, err := certurl.SerializeSCTList([][]byte{make([]byte, n)})
